@@ -44,6 +44,10 @@ def generate(prop, seed, tier):
     spec = G.gen_spec(g, recursion=rec, weights=menu, max_nodes=4 if not many else 3, max_edges=3 if rec != 'none' else 4,
                       explicit_ids=g.choice(['mixed', 'none', 'all']), range_domains=True,
                       min_dom=2 if vit else 1, repeat_ext=not vit, max_nts=4 if many else 3, min_nts=3 if many else 1, max_dom=2 if many else 3)
+    if vit and g.random() < 0.25:
+        # mutually recursive nonterminals whose best derivation may run through other members of the component (the base
+        # rules have very different weights): the arg-max needs several rounds, in an order the presentation decides
+        spec = G.ring_chord_spec(g, 'prob', vec=True, min_sz=2)
     if vit or g.random() < 0.4:
         G.attach_edgeless(spec, g, 'pos' if menu == 'pos' else 'prob')
     if vit:
